@@ -12,7 +12,8 @@ Arguments OPanic {A}.
 (* dynamic types, for the generic As[T] *)
 Inductive gtype :=
 | TNone | TInt (k : ikind) | TF32 | TF64 | TComplex | TString | TBool | TNamed (name : nat)
-| TSlice (e : ety) | TArray (n : nat) | TMap (str_any : bool) | TPtr | TFunc | TChan | TStruct (id : nat).
+| TSlice (e : ety) | TArray (n : nat) | TMap (str_any : bool) | TPtr | TFunc | TChan | TStruct (id : nat)
+| TIface.                      (* an interface type (only as the element type of a Bind destination) *)
 
 Definition type_of (v : gval) : gtype :=
   match v with
@@ -49,7 +50,7 @@ Definition ety_eqb (a b : ety) : bool :=
 Definition gtype_eqb (a b : gtype) : bool :=
   match a, b with
   | TNone, TNone | TF32, TF32 | TF64, TF64 | TComplex, TComplex | TString, TString | TBool, TBool
-  | TPtr, TPtr | TFunc, TFunc | TChan, TChan => true
+  | TPtr, TPtr | TFunc, TFunc | TChan, TChan | TIface, TIface => true
   | TInt k, TInt k' => ikind_eqb k k'
   | TNamed x, TNamed y => Nat.eqb x y
   | TSlice e, TSlice e' => ety_eqb e e'
